@@ -1,6 +1,8 @@
 from abc import ABCMeta, abstractmethod
 from fnmatch import fnmatch
 
+import six
+
 
 class TapeCassette(object):
     """
@@ -153,6 +155,9 @@ class TapeCassette(object):
             return False
 
         if isinstance(match_value, str):
+            # A pattern can only match string values
+            if not isinstance(recorded_value, six.string_types):
+                return False
             return fnmatch(recorded_value, match_value)
 
         return recorded_value == match_value
@@ -163,18 +168,22 @@ class TapeCassette(object):
         Check if this is an operator metadata filter and its value is in range
         """
         result = False
-        if metadata_value['operator'] == '=':
-            result = recorded_value == metadata_value['value']
-        if metadata_value['operator'] == '<':
-            result = recorded_value < metadata_value['value']
-        if metadata_value['operator'] == '<=':
-            result = recorded_value <= metadata_value['value']
-        if metadata_value['operator'] == '>':
-            result = recorded_value > metadata_value['value']
-        if metadata_value['operator'] == '>=':
-            result = recorded_value >= metadata_value['value']
+        try:
+            if metadata_value['operator'] == '=':
+                result = recorded_value == metadata_value['value']
+            if metadata_value['operator'] == '<':
+                result = recorded_value < metadata_value['value']
+            if metadata_value['operator'] == '<=':
+                result = recorded_value <= metadata_value['value']
+            if metadata_value['operator'] == '>':
+                result = recorded_value > metadata_value['value']
+            if metadata_value['operator'] == '>=':
+                result = recorded_value >= metadata_value['value']
+        except TypeError:
+            # A missing value or a value of a type that cannot be compared with the filter value is not a match
+            return False
 
-        return result
+        return bool(result)
 
     @abstractmethod
     def extract_recording_category(self, recording_id):
